@@ -201,6 +201,102 @@ static void case_g3_consistent(const GSpec& s) {
   sx::reached("g3-consistent");
 }
 
+// ---- points anywhere the sine and cosine are expressible: latitude 0 / +-45 deg, longitude k*45 deg, given as B, L, H -----------
+// (the rotation then contains sin/cos atoms and the radius of curvature a radical; the expected equations are stated with the same
+//  atoms from the latitude and longitude the model holds, so the comparison is exact; distances carry instrument / target heights)
+struct BPt { std::string id, b, l; Q h; char status; Q geoid; };
+struct BObs { int kind; int from, to; QMat L; Q stdev; Q fdh, tdh; int dim() const { return kind <= 1 ? 3 : 1; } };
+struct BSpec { std::string name; std::vector<BPt> pts; std::vector<BObs> obs; };
+struct V3 { Real x, y, z; };
+static V3 operator+(V3 a, V3 b) { return {a.x + b.x, a.y + b.y, a.z + b.z}; } static V3 operator-(V3 a, V3 b) { return {a.x - b.x, a.y - b.y, a.z - b.z}; }
+static V3 operator*(V3 a, Real k) { return {a.x * k, a.y * k, a.z * k}; } static Real dot(V3 a, V3 b) { return a.x * b.x + a.y * b.y + a.z * b.z; }
+struct BFrame { V3 n, e, u, xyz; Real sb; };
+
+static std::string g3b_xml(const BSpec& s) {
+  std::ostringstream o;
+  o << "<?xml version=\"1.0\" ?>\n<gnu-gama-data xmlns=\"http://www.gnu.org/software/gama/gnu-gama-data\">\n<g3-model>\n"
+    << "<constants><apriori-standard-deviation>1</apriori-standard-deviation><confidence-level>0.95</confidence-level><tol-abs>1e12</tol-abs><ellipsoid><id>wgs84</id></ellipsoid></constants>\n";
+  for (auto& p : s.pts) { const char* tag = p.status == 'f' ? "fixed" : p.status == 'a' ? "free" : "constr";
+    o << "<" << tag << "> <n/> <e/> <u/> </" << tag << ">\n<point> <id>" << p.id << "</id> <b>" << p.b << "</b> <l>" << p.l << "</l> <h>" << qs(p.h) << "</h> <geoid>" << qs(p.geoid) << "</geoid> </point>\n"; }
+  for (auto& v : s.obs) { const BPt& a = s.pts[v.from]; const BPt& b = s.pts[v.to];      // the values are placeholders: the true ones (radicals) are set after parsing
+    o << "<obs>\n";
+    if (v.kind == 0) o << " <vector> <from>" << a.id << "</from> <to>" << b.id << "</to> <dx>0</dx> <dy>0</dy> <dz>0</dz> </vector>\n";
+    if (v.kind == 1) o << " <xyz> <id>" << a.id << "</id> <x>0</x> <y>0</y> <z>0</z> </xyz>\n";
+    if (v.kind <= 1) { QMat C = qla::mul(v.L, qla::trans(v.L)); o << " <cov-mat> <dim>3</dim> <band>2</band>\n"; for (int i = 0; i < 3; i++) { for (int j = i; j < 3; j++) o << " <flt>" << qs(C(i, j)) << "</flt>"; o << "\n"; } o << " </cov-mat>\n"; }
+    if (v.kind == 2) { o << " <distance> <from>" << a.id << "</from> <to>" << b.id << "</to> <val>1</val> <stdev>" << qs(v.stdev) << "</stdev>"; if (v.fdh != 0) o << " <from-dh>" << qs(v.fdh) << "</from-dh>"; if (v.tdh != 0) o << " <to-dh>" << qs(v.tdh) << "</to-dh>"; o << " </distance>\n"; }
+    if (v.kind == 3) o << " <hdiff> <from>" << a.id << "</from> <to>" << b.id << "</to> <val>0</val> <stdev>" << qs(v.stdev) << "</stdev> </hdiff>\n";
+    if (v.kind == 4) o << " <height> <id>" << a.id << "</id> <val>0</val> <stdev>" << qs(v.stdev) << "</stdev> </height>\n";
+    o << "</obs>\n"; }
+  o << "</g3-model>\n</gnu-gama-data>\n";
+  return o.str();
+}
+
+static void case_g3b(const BSpec& s, bool consistent) {
+  std::vector<std::vector<Real>> errs; { int k = 0; for (auto& o : s.obs) { std::vector<Real> ev; for (int c = 0; c < o.dim(); c++) { if (consistent) { ev.push_back(sx::rat(0)); continue; } Real e = sx::input("e" + std::to_string(++k)); sx::assume_range(e, Q(-1, 100), Q(1, 100)); ev.push_back(e); } errs.push_back(ev); } }
+  // with symbolic errors only the equations are compared (the solution over sin/cos/sqrt atoms does not reduce to a normal form and z3
+  // answers unknown on the normal equations: 260 s without a verdict); error-free observations are adjusted (zero corrections, exactly)
+  Adj::algorithm algs[] = {Adj::envelope, Adj::cholesky, Adj::gso}; int nalg = 1;
+  std::vector<std::unique_ptr<GRun>> runs; std::vector<BFrame> fr(s.pts.size()); int m = 0, n = 0;
+  std::vector<std::vector<Real>> E; std::vector<Real> rhs; QMat P;
+  for (int ai = 0; ai < nalg; ai++) {
+    runs.emplace_back(new GRun); GRun& g = *runs.back(); std::string err;
+    g.model.reset(parse_model(g3b_xml(s), err)); if (!g.model) { sx::fail("generated g3 input rejected", err); return; }
+    for (auto i = g.model->obsdata.begin(), end = g.model->obsdata.end(); i != end; ++i) g.obs.push_back(*i);
+    if (g.obs.size() != s.obs.size()) { sx::fail("number of observations read", std::to_string(g.obs.size())); return; }
+    // frames and generating X,Y,Z from the latitude, longitude and height the model holds (formulas stated here)
+    Real a = g.model->ellipsoid.a(), e2 = g.model->ellipsoid.e2;
+    for (size_t i = 0; i < s.pts.size(); i++) { g3::Point* p = g.model->points->find(s.pts[i].id); if (!p) { sx::fail("point not read", s.pts[i].id); return; }
+      Real B = p->B(), L = p->L(), H = p->H(); Real sb = sin(B), cb = cos(B), sl = sin(L), cl = cos(L); Real N = a / sqrt(sx::rat(1) - e2 * sb * sb);
+      BFrame f; f.sb = sb; f.n = {-sb * cl, -sb * sl, cb}; f.e = {-sl, cl, sx::rat(0)}; f.u = {cb * cl, cb * sl, sb}; f.xyz = {(N + H) * cb * cl, (N + H) * cb * sl, (N * (sx::rat(1) - e2) + H) * sb}; fr[i] = f;
+      if (ai == 0) { sx::check_eq(p->X(), f.xyz.x, s.name + " X of " + s.pts[i].id + " = (N+h) cos B cos L"); sx::check_eq(p->Y(), f.xyz.y, s.name + " Y of " + s.pts[i].id + " = (N+h) cos B sin L"); sx::check_eq(p->Z(), f.xyz.z, s.name + " Z of " + s.pts[i].id + " = (N(1-e^2)+h) sin B");
+        sx::check_eq(H, sx::constant(s.pts[i].h), s.name + " height of " + s.pts[i].id + " as given"); } }
+    // true values + errors
+    for (size_t k = 0; k < g.obs.size(); k++) { const BObs& v = s.obs[k]; const BFrame& A = fr[v.from]; const BFrame& Bq = fr[v.to]; const std::vector<Real>& ev = errs[k]; bool ok = true;
+      if (v.kind == 0) { auto* o = dynamic_cast<g3::Vector*>(g.obs[k]); V3 d = Bq.xyz - A.xyz; if (o) o->set_dxyz(d.x + ev[0], d.y + ev[1], d.z + ev[2]); else ok = false; }
+      if (v.kind == 1) { auto* o = dynamic_cast<g3::XYZ*>(g.obs[k]); if (o) o->set_xyz(A.xyz.x + ev[0], A.xyz.y + ev[1], A.xyz.z + ev[2]); else ok = false; }
+      if (v.kind == 2) { auto* o = dynamic_cast<g3::Distance*>(g.obs[k]); V3 d = (Bq.xyz + Bq.u * sx::constant(v.tdh)) - (A.xyz + A.u * sx::constant(v.fdh)); if (o) o->set(sqrt(dot(d, d)) + ev[0]); else ok = false; }
+      if (v.kind == 3) { auto* o = dynamic_cast<g3::HeightDiff*>(g.obs[k]); if (o) o->set(sx::constant((s.pts[v.to].h - s.pts[v.to].geoid) - (s.pts[v.from].h - s.pts[v.from].geoid)) + ev[0]); else ok = false; }
+      if (v.kind == 4) { auto* o = dynamic_cast<g3::Height*>(g.obs[k]); if (o) o->set(sx::constant(s.pts[v.from].h - s.pts[v.from].geoid) + ev[0]); else ok = false; }
+      if (!ok) { sx::fail("observation read with another type", std::to_string(k + 1)); return; } }
+    try {
+      g.model->set_algorithm(algs[ai]); g.model->update_linearization(); g.rows = g.model->dm_rows; g.cols = g.model->dm_cols;
+      g.A.assign(g.rows, std::vector<Real>(g.cols, sx::rat(0)));
+      for (int r = 1; r <= g.rows; r++) { Real* b = g.model->A->begin(r); Real* en = g.model->A->end(r); int* c = g.model->A->ibegin(r); for (; b != en; ++b, ++c) g.A[r - 1][*c - 1] = g.A[r - 1][*c - 1] + *b; }
+      for (int r = 1; r <= g.rows; r++) g.rhs.push_back(g.model->rhs(r));
+      for (auto it = g.model->points->begin(); it != g.model->points->end(); ++it) { g3::Point* p = *it; g.idx[p->name] = {(int)p->N.index(), (int)p->E.index(), (int)p->U.index()}; }
+      if (consistent) { g.model->update_adjustment();
+        const Vec<>& x = g.model->adj->x(); for (int i = 1; i <= g.cols; i++) g.x.push_back(x(i));
+        const Vec<>& res = g.model->adj->r(); for (int i = 1; i <= g.rows; i++) g.r.push_back(res(i));
+        g.rtr = g.model->adj->rtr(); g.defect = g.model->adj->defect(); g.redundancy = g.model->redundancy; }
+      g.ok = true;
+    } catch (const Exception::matvec& ex) { g.why = std::string("matvec: ") + ex.what(); } catch (const Exception::string& ex) { g.why = ex.str; }
+    sx::check_true(g.ok, s.name + (consistent ? " adjusted" : " linearised"), g.why); if (!g.ok) return;
+    if (ai > 0) continue;
+    // expected equations
+    m = g.rows; n = g.cols; int em = 0; for (auto& o : s.obs) em += o.dim(); int en = 0; for (auto& p : s.pts) if (p.status != 'f') en += 3;
+    sx::check_true(m == em && n == en, s.name + " numbers of equations and unknowns", std::to_string(m) + "x" + std::to_string(n)); if (m != em || n != en) return;
+    E.assign(m, std::vector<Real>(n, sx::rat(0))); rhs.assign(m, sx::rat(0)); P = QMat(m, m);
+    auto put = [&](int row, int pi, V3 gx, Real sign) { const BFrame& f = fr[pi]; const std::vector<int>& ix = g.idx[s.pts[pi].id];
+      if (ix[0]) E[row][ix[0] - 1] = E[row][ix[0] - 1] + sign * dot(gx, f.n); if (ix[1]) E[row][ix[1] - 1] = E[row][ix[1] - 1] + sign * dot(gx, f.e); if (ix[2]) E[row][ix[2] - 1] = E[row][ix[2] - 1] + sign * dot(gx, f.u); };
+    int row = 0;
+    for (size_t k = 0; k < s.obs.size(); k++) { const BObs& v = s.obs[k]; const std::vector<Real>& ev = errs[k];
+      if (v.kind <= 1) { QMat Ci = qla::inverse(qla::mul(v.L, qla::trans(v.L))); for (int i = 0; i < 3; i++) for (int j = 0; j < 3; j++) P(row + i, row + j) = Ci(i, j);
+        for (int c = 0; c < 3; c++) { V3 gx{sx::rat(c == 0), sx::rat(c == 1), sx::rat(c == 2)}; if (v.kind == 0) { put(row + c, v.from, gx, sx::rat(-1)); put(row + c, v.to, gx, sx::rat(1)); } else put(row + c, v.from, gx, sx::rat(1)); rhs[row + c] = ev[c] * sx::rat(1000); } }
+      else { P(row, row) = 1 / (v.stdev * v.stdev); rhs[row] = ev[0] * sx::rat(1000);
+        if (v.kind == 2) { V3 d = fr[v.to].xyz - fr[v.from].xyz; Real dd = sqrt(dot(d, d)); V3 gx{d.x / dd, d.y / dd, d.z / dd}; put(row, v.from, gx, sx::rat(-1)); put(row, v.to, gx, sx::rat(1)); }      // the model takes the direction of the line between the marks
+        if (v.kind == 3) { if (g.idx[s.pts[v.from].id][2]) E[row][g.idx[s.pts[v.from].id][2] - 1] = sx::rat(-1); if (g.idx[s.pts[v.to].id][2]) E[row][g.idx[s.pts[v.to].id][2] - 1] = sx::rat(1); }
+        if (v.kind == 4) { if (g.idx[s.pts[v.from].id][2]) E[row][g.idx[s.pts[v.from].id][2] - 1] = sx::rat(1); } }
+      row += v.dim(); }
+    for (int i = 0; i < m; i++) { sx::check_eq(g.rhs[i], rhs[i], s.name + " right-hand side of equation " + std::to_string(i + 1) + " = 1000 x error"); for (int j = 0; j < n; j++) sx::check_eq(g.A[i][j], E[i][j], s.name + " coefficient " + std::to_string(i + 1) + "," + std::to_string(j + 1)); }
+    bool fixed = false; for (auto& p : s.pts) if (p.status == 'f') fixed = true;
+    if (fixed && consistent) sx::check_true(g.defect == 0 && g.redundancy == m - n, s.name + " defect 0 and redundancy with a fixed point", std::to_string(g.defect));
+    if (consistent) { for (auto& x : g.x) sx::check_zero(x, s.name + " consistent observations: zero corrections"); for (auto& r : g.r) sx::check_zero(r, s.name + " consistent observations: zero residuals"); }
+  }
+  for (size_t a = 1; a < runs.size(); a++) { GRun& h = *runs[a]; GRun& g = *runs[0]; std::string t = s.name + " algorithm " + std::to_string(a) + " vs envelope";
+    for (int j = 0; j < n; j++) sx::check_eq(h.x[j], g.x[j], t + " unknown " + std::to_string(j + 1)); for (int i = 0; i < m; i++) sx::check_eq(h.r[i], g.r[i], t + " residual " + std::to_string(i + 1)); sx::check_eq(h.rtr, g.rtr, t + " sum of squares"); }
+  sx::reached(consistent ? "g3b-consistent" : "g3b");
+}
+
 static void gen_cases(const sx::Options& opt, std::vector<sx::Case>& cases) {
   bool th = opt.tier == "thorough";
   qla::Rng rng(1900 + opt.seed);
@@ -227,6 +323,15 @@ static void gen_cases(const sx::Options& opt, std::vector<sx::Case>& cases) {
     for (size_t i = 0; i < s.obs.size(); i++) s.order.push_back((int)i);
     specs.push_back(s);
   }
+  { // general position (B,L,H given; sin and cos expressible)
+    BSpec s; s.name = "blh4-faaf";
+    s.pts = {{"Q1", "45-00-00", "0-00-00", Q(120), 'f', Q(1)}, {"Q2", "0-00-00", "45-00-00", Q(35), 'a', Q(2)}, {"Q3", "-45-00-00", "90-00-00", Q(410), 'a', Q(3, 2)}, {"Q4", "45-00-00", "135-00-00", Q(15), 'f', Q(1, 2)}};
+    s.obs.push_back({0, 0, 1, lfac(), Q(1), Q(0), Q(0)}); s.obs.push_back({0, 1, 2, lfac(), Q(1), Q(0), Q(0)}); s.obs.push_back({0, 3, 2, lfac(), Q(1), Q(0), Q(0)}); s.obs.push_back({1, 1, 1, lfac(), Q(1), Q(0), Q(0)});
+    s.obs.push_back({2, 0, 1, QMat(), Q(3), Q(3, 2), Q(0)}); s.obs.push_back({2, 2, 3, QMat(), Q(4), Q(5, 4), Q(2)});      /* instrument and target heights are binary fractions: they pass through the text exactly */ s.obs.push_back({2, 1, 2, QMat(), Q(2), Q(0), Q(0)});
+    s.obs.push_back({3, 1, 2, QMat(), Q(2), Q(0), Q(0)}); s.obs.push_back({4, 2, 2, QMat(), Q(3), Q(0), Q(0)});
+    auto sp = std::make_shared<BSpec>(s);
+    cases.push_back({"g3/" + s.name, "gama-g3 model, general position", [sp] { case_g3b(*sp, false); }});
+    cases.push_back({"g3-consistent/" + s.name, "gama-g3 model, general position, error-free", [sp] { case_g3b(*sp, true); }}); }
   for (auto& s : specs) { auto sp = std::make_shared<GSpec>(s);
     cases.push_back({"g3/" + s.name, "gama-g3 model", [sp] { case_g3(*sp); }});
     cases.push_back({"g3-consistent/" + s.name, "gama-g3 model, error-free", [sp] { case_g3_consistent(*sp); }}); }
